@@ -15,6 +15,59 @@ def gen_modules(prefixes):
     return out
 
 
+import re
+import subprocess
+
+
+def c19_classify(d, trep):
+    """`validate k s` is answered by the model with the regex semantics (proved = Matches): a disagreement is a string on
+    which the real validator and the published regex differ."""
+    w = d["req"].split(" ")
+    if w[0] == "validate":
+        k, hx = w[1], w[2]
+        th = trep.get("dfa", {}).get("table_hash", {}).get(k)
+        if th is not None and int(k) in trep.get("dfa", {}).get("known_bad", []):
+            return "known", f"regex{k}:table={th}:witness={hx}"
+        s = bytes.fromhex(hx) if hx != "-" else b""
+        return "violation", (f"validate_regex_{k} on {s!r} (hex {hx}): implementation answers `{d['impl']}`, the published regex "
+                             f"says `{d['model']}`")
+    return "model", None
+
+
+def c19_search(failed_mods, ctx):
+    """for every table whose certificate no longer checks: shortest distinguishing string from the DFA x derivative product
+    (computed by the Lean driver), replayed on the real validator"""
+    found, notes = [], []
+    for fm in failed_mods:
+        m = re.search(r"DfaCert_(\d+)$", fm)
+        if not m:
+            continue
+        k = m.group(1)
+        r = subprocess.run([ctx["driver"]], input=f"diffsearch {k}\n", capture_output=True, text=True, timeout=900)
+        ans = r.stdout.strip()
+        mm = re.match(r"ok (\S+) dfa=(\w+) regex=(\w+)", ans)
+        if not mm:
+            notes.append(f"diffsearch {k}: {ans or r.stderr[-200:]}")
+            continue
+        hx, dfa_says, regex_says = mm.groups()
+        reqf = os.path.join(ctx["work"], f"search_{k}.txt")
+        open(reqf, "w").write(f"validate {k} {hx}\n")
+        out = os.path.join(ctx["work"], f"search_{k}")
+        r2 = subprocess.run([ctx["harness"], "eval", "--replay", reqf, "--out", out, "--side", os.path.join(ctx["gen"], "side.json")],
+                            capture_output=True, text=True, timeout=600)
+        try:
+            impl = open(os.path.join(out, "impl.txt")).read().strip()
+        except OSError:
+            impl = "?" + r2.stderr[-200:]
+        s = bytes.fromhex(hx) if hx != "-" else b""
+        if impl == f"ok {dfa_says}" and dfa_says != regex_says:
+            found.append(f"validate_regex_{k} on {s!r} (hex {hx}): implementation answers `{impl}`, the published regex says `ok {regex_says}` "
+                         f"(witness computed from the product of REGEX_{k}_TABLE and the derivatives of the regex)")
+        else:
+            notes.append(f"diffsearch {k}: witness {hx} (table model {dfa_says}, regex {regex_says}) but implementation answers {impl}")
+    return found, notes
+
+
 PROPS = {
     "C18": {
         "property_module": "AutosarVerif.Properties.C18",
@@ -42,6 +95,29 @@ PROPS = {
         "assumptions": ["little-endian host (hashfunc uses from_ne_bytes)",
                         "element types are enumerated through the public API from ElementType::ROOT (unreachable table rows are covered "
                         "by the theorems, which quantify over all type ids, but not by the correspondence run)"],
+        "timeout": 3600,
+    },
+    "C19": {
+        "property_module": "AutosarVerif.Properties.C19",
+        "modules": ["AutosarVerif.Properties.C19"],
+        "closure": lambda: ["AutosarVerif.Properties.C19", "AutosarVerif.Lemmas.Regex"] + gen_modules(["DfaCert_", "DfaAll"]),
+        "scenario": "c19",
+        "shape_parts": ["dfa"],
+        "classify": c19_classify,
+        "search": c19_search,
+        "rule": "per validator k (all 28): a derivative automaton of the published regex is built by the harness's own test generator; "
+                "tests = transition cover (access string of every automaton state x every representative byte; thorough: all 256 bytes) x "
+                "characterising suffixes (a shortest accepted continuation of the successor, of the sibling transitions and a sample of all "
+                "states'), all strings up to the stated length over the regex's reduced alphabet (class boundaries and neighbours), members "
+                "from random walks with five one-edit neighbours each, random bytes / invalid UTF-8. `validate k s` compares the real "
+                "check_fn with the Lean regex semantics (matchD, proved equal to Matches); `dfa k s` compares it with the regenerated "
+                "table. Non-trivial = non-empty string, distinct request line.",
+        "trusted_base": ["translator/gen.py (copies REGEX_k_TABLE rows, the matches! accepting set and the Pattern regex strings; checks "
+                         "the loop of each table-driven validator against the modelled shape)",
+                         "Rx.parseRegex: the reading of the regex dialect (DESIGN.md §8 C19) is part of the specification",
+                         "hand-written validators: tied by the conformance run only (and by the transcription theorems of "
+                         "Properties/C19Hand.lean where present)"],
+        "assumptions": ["regex dialect: whole-string byte match, '.' excludes 0x0A, \\d = [0-9]"],
         "timeout": 3600,
     },
 }
